@@ -90,6 +90,11 @@ CHECKS = {
    text='Replica A (always update --incremental) and replica B (always full update) of one tree created with create -t; all histories of 2 (quick) / 3 (thorough) rounds over {modify same size, modify other size, touch, replace by equal content} x 3 files x mtime class {T-1, T, T+0.5, T+1 relative to the previous TIMESTAMP}, add, delete x TZ {UTC, east, west} x flat/nested layout x whole-second / fractional scan start, with gemato.cli.datetime replaced by a controlled clock: whenever every modified file is newer than the previous TIMESTAMP or changed size the Manifests must be equal; the TIMESTAMP written never exceeds the scan start. Second family: a file edited after the k-th per-file hash of a running update, for every (k, file), must be picked up by the next incremental run.',
    note='Trusted: the fake clock installed into gemato.cli (asserted: the TIMESTAMP written equals the fake instant), os.utime for all mtimes, refmanifest for comparison. DONT_CARE: same-size modification or added file with mtime <= previous TIMESTAMP; in-flight same-size edit within the whole second of the scan start.',
    ref='DESIGN.md §3 C11'),
+ 'C16': dict(level='model_checking',
+   technique='exhaustive enumeration of all rooted directory shapes x all (n+1)^n directory-symlink sets x IGNORE placements x walkers under an iteration budget, plus a real second filesystem, vs a graph-model oracle',
+   text='All unordered rooted trees on n<=4 (quick) / n<=5 (thorough) directories, each directory optionally holding one directory symlink to any directory (all (n+1)^n link sets: self, parent, ancestor, root, sibling, descendant, mutual pairs, chains, diamonds) x IGNORE on the link / on an ancestor / on paths reached through links x sub-path starts x 5 walkers (verify strict, verify keep-going, unregistered-Manifest scan, update+save+fresh verify, gemato create), each under a scandir-call budget that turns non-termination into a violation: loop back to an ancestor on the current path outside IGNOREd paths -> ManifestSymlinkLoop from every walker, otherwise termination with files behind links treated like any others. Second family on a REAL second filesystem (/dev/shm vs tempdir): foreign directory/file/empty dir/loop through the other device/equal inode number at every position x IGNORE x allow_xdev x library and CLI walkers -> ManifestCrossDevice iff crossing disallowed and not IGNOREd.',
+   note='Trusted: the graph-model oracle in the harness (cross-checked against a disk DFS with real (st_dev, st_ino)); the equal-inode kind is the only virtual part (os proxy). DONT_CARE: which loop is reported first, the level of detection, sub-path starts that re-enter the tree root. Bound 5 directories (statement says up to 6); one link per directory.',
+   ref='DESIGN.md §3 C16'),
 }
 NOT_YET = {}
 
